@@ -30,6 +30,11 @@ def cases(draw):
     s = draw(dataset_specs(max_nq=2, max_na=2, max_nt=3, keys_mode="ortho9+", interpolators=["lsq_poly"]))
     s["order"] = min(s["order"], 3)
     s["touch_first"] = draw(st.sampled_from(["nothing", "s11t", "c11t", "pressure_base"]))     # API calls made before the averages are read
+    if draw(st.integers(0, 3)) == 0:
+        # low-symmetry table listing the nine orthotropic constants and only one or two isolated couplings (e.g. c35, c46)
+        s["system"] = draw(st.sampled_from(["triclinic", "monoclinic"]))
+        s["apply_system"] = False
+        s["keys_mode"] = "ortho9+sparse"
     return s
 
 
